@@ -124,3 +124,52 @@ func WaitBlocked(frame string, done func() bool, limit time.Duration, accepted .
 		}
 	}
 }
+
+// GoID returns the id of the calling goroutine (as printed in stack dumps).
+func GoID() string {
+	var buf [64]byte
+	n := runtime.Stack(buf[:], false)
+	f := strings.Fields(string(buf[:n]))
+	if len(f) >= 2 {
+		return f[1]
+	}
+	return ""
+}
+
+// StateOf returns the wait state of goroutine id ("" if it no longer exists).
+func StateOf(id string) string {
+	for _, g := range Dump() {
+		if g.ID == id {
+			return g.State
+		}
+	}
+	return ""
+}
+
+// WaitDoneOrBlocked waits until done() or until goroutine id is seen in wait state `state` on two
+// dumps 2ms apart with done() still false (then it returns false). limit bounds the wait (timedOut).
+func WaitDoneOrBlocked(id string, state string, done func() bool, limit time.Duration) (finished bool, timedOut bool) {
+	deadline := time.Now().Add(limit)
+	for i := 0; ; i++ {
+		if done() {
+			return true, false
+		}
+		if i > 5 && StateOf(id) == state {
+			time.Sleep(2 * time.Millisecond)
+			if done() {
+				return true, false
+			}
+			if StateOf(id) == state && !done() {
+				return false, false
+			}
+		}
+		if time.Now().After(deadline) {
+			return false, true
+		}
+		if i < 20 {
+			runtime.Gosched()
+		} else {
+			time.Sleep(50 * time.Microsecond)
+		}
+	}
+}
